@@ -51,6 +51,17 @@ def run(ctx):
     f7 = F.in_contexts(f1, per, rnd)
     agg = run_family("C01F7", f7, NAMES + ["z", "macroname"], dev=dev, invariants=INVS, properties=[], perms=perms[:2], timeout=900)
     ctx.add_family(agg)
+    # F8: the same programs with their statements spelled through a renamed prefix and as data-tal-* attributes -- also
+    # programs whose statement values contain character entities
+    ent = [p for p in F.c12_raising("quick", rnd) if p["fam"].endswith(":entities")]
+    f8 = rnd.sample(f1, 16 if quick else 100) + rnd.sample(ent, min(len(ent), 10 if quick else 100))
+    agg = run_family("C01F8", f8, NAMES, dev=dev, invariants=INVS, properties=[], perms=(100, 300, 301), timeout=900)
+    ctx.add_family(agg)
+    # F9: one name re-bound by nested global / local / repeat elements (every chain of up to three over the name x)
+    chains, pool9 = F.c05_chains(ctx.tier, rnd)
+    f9 = [p for p in chains if all(part.endswith(":x") for part in p["fam"].split(" ")[0].split(":", 1)[1].split("/"))]
+    agg = run_family("C01F9", f9, sorted(set(pool9) | {"error"}), dev=dev, invariants=INVS, properties=[], perms=(0,), timeout=900)
+    ctx.add_family(agg)
     f5 = F.c01_extras(ctx.tier, rnd)
     agg = run_family("C01F5", f5, NAMES, dev=dev, invariants=INVS, properties=PROPS, perms=perms[:2] if quick else perms[:4],
                      timeout=600)
